@@ -23,7 +23,7 @@ Lemma wait_step s u e : ph s = PWaiting u ->
   let s' := fst (step cfg s e) in
   ph s' = PWaiting u \/ left_early s' \/ (e = EvTimer /\ fire cfg u <= now s).
 Proof.
-  intros Hp. unfold left_early. destruct e as [c st| | |ok|tx k|tx k| | | | | |dt| |dt| ]; cbn [step]; rewrite ?Hp; cbn [listens reading fst ph set_now set_wctl set_handles]; auto.
+  intros Hp. unfold left_early. destruct e as [c st| | |ok|tx k|tx k| | | | | |dt| |dt| | |k| ]; cbn [step]; rewrite ?Hp; cbn [listens reading fst ph set_now set_wctl set_handles set_wpark]; auto.
   - (* EvSubmit *)
     destruct (Nat.eqb (handles s) 0); [auto|].
     destruct (is_nil (blocked s) && Nat.ltb (List.length (queue s)) (cfg_cap cfg)); cbn [fst ph set_chan]; auto.
@@ -43,6 +43,8 @@ Proof.
       * unfold terminate. cbn [fst ph set_chan set_ph]. auto.
   - (* EvTimer *)
     destruct (N.leb_spec (fire cfg u) (now s)); auto.
+  - (* EvWriteRelease *)
+    destruct (wpark s) as [|n]; cbn [fst ph set_wpark]; rewrite ?Hp; auto.
 Qed.
 
 (* in particular: handling a request, a (redundant) enable or a decode-level change while waiting
